@@ -10,6 +10,7 @@ import (
 	"regexp"
 	"runtime"
 	"runtime/debug"
+	"sort"
 	"strconv"
 	"strings"
 	"sync"
@@ -47,7 +48,11 @@ func c10Generators(thorough bool) []c10Gen {
 	corp := corpus()
 	small := seeds[:6]
 	var gens []c10Gen
-	gens = append(gens, genLadders())
+	if thorough {
+		gens = append(gens, genLadders(1<<62, 1<<62))
+	} else {
+		gens = append(gens, genLadders(512, 1<<20))
+	}
 	if thorough {
 		gens = append(gens, genTokenStrings(5))
 		gens = append(gens, genTokenEdits(append(seeds, corp...), false))
@@ -80,6 +85,40 @@ func topNagaFrame(stack string) string {
 		}
 	}
 	return "?"
+}
+
+// cycleSig names a recursion cycle independently of which frame happened to be on top: the sorted
+// set of distinct naga functions among the innermost frames.
+func cycleSig(stack string) string {
+	seen := map[string]bool{}
+	var names []string
+	n := 0
+	for _, ln := range strings.Split(stack, "\n") {
+		if strings.HasPrefix(ln, "\t") || strings.Contains(ln, "verif/internal") {
+			continue
+		}
+		m := nagaFrame.FindString(ln)
+		if m == "" {
+			continue
+		}
+		n++
+		if n > 60 {
+			break
+		}
+		m = strings.TrimPrefix(m, "github.com/gogpu/naga/")
+		if i := strings.LastIndex(m, "("); i > 0 {
+			m = m[:i]
+		}
+		if !seen[m] {
+			seen[m] = true
+			names = append(names, m)
+		}
+	}
+	sort.Strings(names)
+	if len(names) > 6 {
+		names = names[:6]
+	}
+	return strings.Join(names, "+")
 }
 
 type c10Panic struct {
@@ -165,7 +204,12 @@ func c10Worker(args []string) int {
 		}
 		fmt.Fprintf(out, "@ %d\n", k)
 		src := gen.At(idx)
-		for _, p := range c10RunOne(src) {
+		t0 := time.Now()
+		ps := c10RunOne(src)
+		if os.Getenv("VERIF_C10_TIMES") != "" {
+			fmt.Fprintf(os.Stderr, "T %.3f %s\n", time.Since(t0).Seconds(), gen.Label(idx))
+		}
+		for _, p := range ps {
 			b, _ := json.Marshal(p)
 			fmt.Fprintf(out, "P %d %s\n", k, b)
 		}
@@ -196,7 +240,7 @@ func procCPU(pid int) float64 {
 func runC10() int {
 	r := explore.New("C10")
 	thorough := r.Thorough()
-	cpuCap := 10.0
+	cpuCap := 40.0
 	if thorough {
 		cpuCap = 120.0
 	}
@@ -351,7 +395,7 @@ func c10RunShard(r *explore.Run, self, tier string, g int, gen c10Gen, shard, n,
 			cls = "cpu-cap|" + gen.Name
 		}
 	case strings.Contains(es, "stack overflow"):
-		cls = "fatal|stack overflow|" + topNagaFrame(afterGoroutine(es))
+		cls = "fatal|stack overflow|" + cycleSig(afterGoroutine(es))
 	case strings.Contains(es, "out of memory") || strings.Contains(es, "cannot allocate memory"):
 		cls = "fatal|out of memory|" + topNagaFrame(afterGoroutine(es))
 	default:
